@@ -2,6 +2,7 @@
 \* bounded L1
 CONSTANTS
   Rule = "proposed"
+  StoreRead = "snapshot"
   Treadmill = FALSE
   Record = FALSE
   MaxBlock = 4
